@@ -143,7 +143,7 @@ fn connect_bytes(first: First) -> (Vec<u8>, Option<u8>) {
         }
         First::Other { v5, k } => {
             let t = crate::props::c16::templates(v5);
-            let others: Vec<&(&'static str, Vec<u8>)> = t.iter().filter(|(n, b)| *n != "CONNECT" && !b.is_empty() && *n != "payload-tail").collect();
+            let others: Vec<&(&'static str, Vec<u8>)> = t.iter().filter(|(n, b)| *n != "CONNECT" && *n != "CONNECT-odd" && !b.is_empty() && *n != "payload-tail").collect();
             (others[usize::from(k) % others.len()].1.clone(), None)
         }
     }
@@ -310,7 +310,7 @@ fn firsts() -> Vec<First> {
         }
     }
     for v5 in [false, true] {
-        let n = crate::props::c16::templates(v5).iter().filter(|(n, b)| *n != "CONNECT" && !b.is_empty() && *n != "payload-tail").count();
+        let n = crate::props::c16::templates(v5).iter().filter(|(n, b)| *n != "CONNECT" && *n != "CONNECT-odd" && !b.is_empty() && *n != "payload-tail").count();
         for k in 0..n as u8 {
             v.push(First::Other { v5, k });
         }
